@@ -209,7 +209,7 @@ func passwordOfThisRequest(fn *ssa.Function, v ssa.Value) (bool, string) {
 // session's own user name u, after the nil check and after the empty-password test.
 func ruleAuthenBinding(p *Program, r *Result) {
 	n := 0
-	for _, fn := range p.FuncsIn(func(path string) bool { return path == modPath+"/cmds/server/handlers" }) {
+	for _, fn := range p.UnitsIn(func(path string) bool { return path == modPath+"/cmds/server/handlers" }) {
 		for _, b := range fn.Blocks {
 			for _, in := range b.Instrs {
 				// load of AAA.Authenticate
@@ -285,32 +285,48 @@ func userFieldOnlyFromSession(p *Program, field *types.Var) bool {
 				if fromSessionBody(fn, v) {
 					continue
 				}
-				if pr, ok := v.(*ssa.Parameter); ok {
-					// constructor parameter: check the call sites
-					idx := paramIndex(fn, pr)
-					node := p.cgNode(fn)
-					good := node != nil
-					if node != nil {
-						for _, e := range node.In {
-							c := e.Caller.Func
-							if e.Site == nil || c == nil || p.isTestFile(c.Pos()) {
-								continue
-							}
-							if pk := outermost(c).Pkg; pk == nil || !inUniverse(pk.Pkg.Path()) {
-								continue
-							}
-							if !fromSessionBody(c, stripAllConv(e.Site.Common().Args[idx])) {
-								good = false
-							}
-						}
-					}
-					if good {
-						continue
-					}
+				if pr, ok := v.(*ssa.Parameter); ok && paramFromSession(p, fn, pr, 3) {
+					continue
 				}
 				return false
 			}
 		}
+	}
+	return n > 0
+}
+
+// paramFromSession: every call site (in the server universe) of fn passes, for parameter pr, the user field of a
+// body decoded from that caller's request - directly, or as a parameter of its own that satisfies the same.
+func paramFromSession(p *Program, fn *ssa.Function, pr *ssa.Parameter, depth int) bool {
+	if depth == 0 {
+		return false
+	}
+	idx := paramIndex(fn, pr)
+	node := p.cgNode(fn)
+	if node == nil || idx < 0 {
+		return false
+	}
+	n := 0
+	for _, e := range node.In {
+		c := e.Caller.Func
+		if e.Site == nil || c == nil || p.isTestFile(c.Pos()) {
+			continue
+		}
+		if pk := outermost(c).Pkg; pk == nil || !inUniverse(pk.Pkg.Path()) {
+			continue
+		}
+		if !sameFn(e.Site.Common().StaticCallee(), fn) || idx >= len(e.Site.Common().Args) {
+			return false
+		}
+		n++
+		arg := stripAllConv(e.Site.Common().Args[idx])
+		if fromSessionBody(c, arg) {
+			continue
+		}
+		if p2, ok := arg.(*ssa.Parameter); ok && paramFromSession(p, c, p2, depth-1) {
+			continue
+		}
+		return false
 	}
 	return n > 0
 }
@@ -332,12 +348,49 @@ func fromSessionBody(fn *ssa.Function, v ssa.Value) bool {
 			return true
 		}
 	}
+	// the result of a helper that is handed this function's request and returns either the empty string or the
+	// user field of the body it decoded from that request
+	if call, idx, ok := extractOf(v); ok || isCallValue(v) {
+		if !ok {
+			call, idx = v.(*ssa.Call), 0
+		}
+		g := call.Common().StaticCallee()
+		passes := false
+		for _, a := range call.Common().Args {
+			if isHandlerRequestParam(fn, a) {
+				passes = true
+			}
+		}
+		if g != nil && len(g.Blocks) > 0 && passes && g != fn {
+			n := 0
+			for _, b := range g.Blocks {
+				ret, ok := b.Instrs[len(b.Instrs)-1].(*ssa.Return)
+				if !ok || b == g.Recover || idx >= len(ret.Results) {
+					continue
+				}
+				for _, rv := range returnedValues(g, ret, idx) {
+					if c, isC := rv.(*ssa.Const); isC && c.Value != nil && c.Value.ExactString() == `""` {
+						continue
+					}
+					if !fromSessionBody(g, stripAllConv(rv)) {
+						return false
+					}
+					n++
+				}
+			}
+			return n > 0
+		}
+	}
 	fl, base, ok := loadedField(v)
 	if !ok || !(fl.Name() == "User" || fl.Name() == "UserMessage") {
 		return false
 	}
 	a, ok := base.(*ssa.Alloc)
 	if !ok {
+		// a pointer to the decoded body handed in by the callers
+		if pr, isParam := base.(*ssa.Parameter); isParam && gProg != nil {
+			return bodyParamDecodedAtCallers(gProg, fn, pr)
+		}
 		return decodedByHelper(fn, base)
 	}
 	for dc, da := range decodeCalls(fn, "") {
@@ -346,6 +399,43 @@ func fromSessionBody(fn *ssa.Function, v ssa.Value) bool {
 		}
 	}
 	return false
+}
+
+// bodyParamDecodedAtCallers: every caller of fn passes, for the pointer parameter pr, the address of a local it
+// decoded from its own request's Body (behind the success of that decode).
+func bodyParamDecodedAtCallers(p *Program, fn *ssa.Function, pr *ssa.Parameter) bool {
+	idx := paramIndex(fn, pr)
+	node := p.cgNode(fn)
+	if node == nil || idx < 0 {
+		return false
+	}
+	n := 0
+	for _, e := range node.In {
+		c := e.Caller.Func
+		if e.Site == nil || c == nil || p.isTestFile(c.Pos()) {
+			continue
+		}
+		if !sameFn(e.Site.Common().StaticCallee(), fn) || idx >= len(e.Site.Common().Args) {
+			return false
+		}
+		a, ok := e.Site.Common().Args[idx].(*ssa.Alloc)
+		if !ok {
+			return false
+		}
+		found := false
+		for dc, da := range decodeCalls(c, "") {
+			if da == a && isRequestBody(dc.Common().Args[0]) {
+				if g, _ := guardedBySuccess(dc, e.Site, nil); g {
+					found = true
+				}
+			}
+		}
+		if !found {
+			return false
+		}
+		n++
+	}
+	return n > 0
 }
 
 // decodedByHelper: base is the pointer a statically called helper returns, where the helper is given this
@@ -423,7 +513,7 @@ func decodedByHelper(fn *ssa.Function, base ssa.Value) bool {
 // "password present" edge.
 func ruleEmptyPassword(p *Program, r *Result) {
 	n := 0
-	for _, fn := range p.FuncsIn(func(path string) bool { return path == modPath+"/cmds/server/handlers" }) {
+	for _, fn := range p.UnitsIn(func(path string) bool { return path == modPath+"/cmds/server/handlers" }) {
 		var deleg ssa.CallInstruction
 		for _, b := range fn.Blocks {
 			for _, in := range b.Instrs {
@@ -1023,4 +1113,9 @@ func ruleAbortFirst(p *Program, r *Result) {
 	if n == 0 {
 		r.undecided("R-ABORT", "states", "-", "no handler state decoding a CONTINUE and handing the exchange on was found")
 	}
+}
+
+func isCallValue(v ssa.Value) bool {
+	_, ok := v.(*ssa.Call)
+	return ok
 }
